@@ -1,7 +1,7 @@
 (* Pinned statements of the C10 theorems (generated once by bin/genpins, then committed):
    fails to compile if Props/C10.v is weakened, renamed or given other hypotheses. *)
 From Coq Require Import SpecFloat.
-Require Import Base Value Float PrintOptions ParseOptions Reader Scan Num Parser DatumProofs.
+Require Import Base Value Float PrintOptions ParseOptions Reader Scan Num Parser ListOps DatumRef DatumProofs DatumRefProofs.
 Require Import Lexpr.Props.C10.
 
 Check (C10_next :
@@ -20,6 +20,37 @@ Check (C10_from_trait :
   match datum_from_trait ro alpha fast std_parse k inp with
   | POk d => POk (dvalue d)
   | PErr e => PErr e
+  end).
+
+Check (C10_datums_shaped :
+  forall ro alpha fast std_parse fuel s d s',
+  next_datum ro alpha fast std_parse fuel s = (POk (Some d), s') -> shaped (dvalue d) (dinfo d)).
+
+Check (C10_from_trait_shaped :
+  forall ro alpha fast std_parse k inp d,
+  datum_from_trait ro alpha fast std_parse k inp = POk d -> shaped (dvalue d) (dinfo d)).
+
+Check (C10_accessors :
+  forall r, shaped (fst r) (snd r) -> accessors_agree r).
+
+Check (C10_accessors_everywhere :
+  forall ro alpha fast std_parse k inp d r,
+  datum_from_trait ro alpha fast std_parse k inp = POk d -> reach (datum_ref d) r -> accessors_agree r).
+
+Check (C10_accessors_nonvacuous :
+  match datum_from_trait default_ro (fun _ => true) true dec_to_f64 SrcStr (bytes_events (s2b "(a 'b . #(1 ""x""))")) with
+  | POk d =>
+      match ref_list_iter (datum_ref d) with
+      | Some c =>
+          match ref_drain 5 c with
+          | Val items => map (option_map fst) items =
+                         [Some (Symbol (s2b "a")); Some (vlist [Symbol (s2b "quote"); Symbol (s2b "b")]); None;
+                          Some (Vector [Number (PosInt 1); String (s2b "x")]); None]
+          | Panic => False
+          end
+      | None => False
+      end
+  | PErr _ => False
   end).
 
 Check (C10_nonvacuous :
